@@ -55,6 +55,15 @@ CHECKS = {
             "view, n in {4,7}, both timeout rules, three schemes; TLC checks at every message that a certificate leaves the replica exactly at the quorum step, from those "
             "messages only, verifies at all other replicas (TC and aggregate QC), and moves a replica in that view on (Pass A); the real bag equals the model's (Pass B).",
             "Crafted timeouts carry only the genesis QC as sync info.", "DESIGN.md section 6, C08"),
+    "C09": ("model_checking",
+            "TLA+ VoteCollector module (countable votes vs the collector as coded; Kauri merge rule) model-checked by TLC over all arrival orders; TLC replay of vote / contribution traffic fed to a real VotingMachine (sync and scheduler-gated async verification) and to real Kauri nodes",
+            "TLC exhausts all arrival orders of honest and hostile votes (duplicate, invalid, two-signer, relayed, wrong block) and shows the collector forms the certificate "
+            "exactly when the countable votes reach the quorum (negative control: accepting multi-signer votes is refuted - the collector wedges). A real replica's "
+            "VotingMachine is fed, per round, the puppet leader's proposal and votes in scheduler order (before/after the block, sync and async verification with the "
+            "completion order chosen by a gated crypto wrapper), n in {4,7}, three schemes; real Kauri nodes (root, inner, leaf) are fed contributions (valid, overlapping, "
+            "invalid, wrong view, absent signature) and timer expiry. TLC checks that certificates appear exactly at the quorum step, contain only counted votes, verify "
+            "at all other replicas, that hostile votes never prevent them, and that every partial aggregate sent to the parent verifies.",
+            "Vote sender ids are transport-authenticated; the wait timer of a Kauri round fires at most once.", "DESIGN.md section 6, C09"),
     "C11": ("model_checking",
             "TLA+ SigCache module (LRU state machine, key derivation) model-checked by TLC for transparency; TLC state-machine replay of operation sequences run on a cached and an uncached real Authority",
             "TLC exhausts the cache model over a small request universe and shows cached verdict = uncached verdict in every reachable state (negative control: the "
